@@ -13,7 +13,8 @@ def run(c):
     # included (linux-ebpf/ebpf_cgroup.c in the user-space shim, judged by spec/trace/EbpfTrace.tla; shared with C06)
     from checks import c06
     for f in c06.kernel_side_random(c, "c03k"):
-        if f["sig"].get("kind") in ("uid-from-gid", "record-admin", "record-logon"):
+        if f["sig"].get("kind") in ("uid-from-gid", "record-admin", "record-logon", "record-for-unlisted", "stale-record-on-reused-port",
+                                    "record-under-other-key"):
             c.violation("the kernel program's record misstates whether the caller runs elevated: " + f["whats"][0],
                         {"kind": "kernel-record-misstates-elevation"}, {"witness": f.get("witness"), "sites": f["sites"]})
 
